@@ -139,8 +139,19 @@ def parse_impl(out):
     return schemas
 
 
+def words_sorted_in_source():
+    """does the working tree's TableTranslator sort the iterator LookupWords filled before the first Peek?  (repair of the
+    finding C07:table:exact-order; the model has both variants)"""
+    try:
+        src = open(os.path.join(vlib.REPO, "src/rime/gear/table_translator.cc")).read()
+    except OSError:
+        return False
+    return bool(re.search(r"more\.Sort\(\)", src)) and bool(re.search(r"iter\.Sort\(\)", src))
+
+
 def model_input(sch, cfg):
-    o = ["table"] + sch["table"] + ["endtable", "cfg %s %d %s" % (sch["kind"], 1 if cfg["completion"] else 0, cfg["delims"].encode().hex() or "-")]
+    o = ["table"] + sch["table"] + ["endtable", "cfg %s %d %s %d" % (sch["kind"], 1 if cfg["completion"] else 0,
+                                                                    cfg["delims"].encode().hex() or "-", 1 if words_sorted_in_source() else 0)]
     for inp in sch["inputs"]:
         if not inp["done"] or inp["g"] is None:
             continue
@@ -381,7 +392,7 @@ def monitor_script(cfg, rows, sid, inp):
                         (target.decode("utf-8", "replace"), s[1], s[2], interp)))
     sent_text = cands[0][3] if cands and cands[0][0] == "sentence" else None
     seen = set()
-    last_end = None
+    last_end = last_type = None
     for ty, st, en, t, cm in body:
         if t in seen:
             bad.append(("duplicate", "text %s listed twice" % t))
@@ -398,7 +409,10 @@ def monitor_script(cfg, rows, sid, inp):
             bad.append(("unsound", "unexpected candidate type %s" % ty))
         if last_end is not None and en > last_end:
             bad.append(("order", "a shorter match [0,%d) comes before a longer one [0,%d)" % (last_end, en)))
-        last_end = en
+        if last_end == en and last_type == "completion" and ty == "phrase":
+            bad.append(("order", "at [0,%d) a word completion comes before the fully spelled entry %s" %
+                        (en, bytes.fromhex(t).decode("utf-8", "replace"))))
+        last_end, last_type = en, ty
         best = max(exact_ends.get(t, set()) | {0})
         if ty == "phrase" and en in exact_ends.get(t, set()) and en != best:
             bad.append(("order", "text %s first listed at [0,%d) although it is also spelled by [0,%d)" % (t, en, best)))
